@@ -243,8 +243,8 @@ def task_itpfile_init(prop, seed):
     tag = f"{prop}/ItpFile.__init__"
 
     def inv(st, k):
-        P = st.env.get("self")
-        if not isinstance(P, ItpSelf) or st.env.get("sec", pyvc.UNBOUND) is pyvc.UNBOUND:
+        P = pyvc.local(st, "self", ItpSelf)
+        if pyvc.local(st, "sec") is pyvc.UNBOUND:
             return z3.BoolVal(False)
         return structure(P, _sec_term(st.env["sec"]), k)
 
